@@ -87,7 +87,7 @@ class DiscSpec(netx.Spec):
 
     def canon_extra(self, world):
         m = world.mon
-        return (sorted(m["ref"]["hosted"].items()), sorted(m["ref"]["replicas"]), sorted(m["ref"]["subs"]), sorted(m["ref"]["agents"]), m["ref"]["nops"], sorted(m["ref"]["unsubbed"]), sorted(m["ref"].get("last_host", {}).items()), sorted(m["ref"].get("left", [])), sorted(m["ref"].get("at_sub", {}).items()), sorted(m["ref"].get("r_interrupted", [])),
+        return (sorted(m["ref"]["hosted"].items()), sorted(m["ref"]["replicas"]), sorted(m["ref"]["subs"]), sorted(m["ref"]["agents"]), m["ref"]["nops"], sorted(m["ref"]["unsubbed"]), sorted(m["ref"].get("last_host", {}).items()), sorted(m["ref"].get("left", [])), sorted(m["ref"].get("at_sub", {}).items()), sorted(m["ref"].get("reregistered", [])),
                 sorted((k, v) for k, v in m.get("cb", {}).items()))
 
     def extra_events(self, world):
@@ -169,14 +169,13 @@ class DiscSpec(netx.Spec):
                 world.mon.get("cb", {}).pop(tuple(sub), None)
         elif op == "regC":
             d.register_computation(arg, x, "addr_" + x)
+            if ref.get("last_host", {}).get(arg) is not None and arg not in ref.setdefault("reregistered", []):
+                ref["reregistered"].append(arg)
             ref["hosted"][arg] = x
             ref.setdefault("last_host", {})[arg] = x
         elif op == "unregC":
             d.unregister_computation(arg, x)
             ref["hosted"][arg] = None
-            for s_ in ref["subs"]:
-                if s_[1] == "R" and s_[2] == arg and [s_[0], arg] not in ref.setdefault("r_interrupted", []):
-                    ref["r_interrupted"].append([s_[0], arg])
             # a host that publishes the removal of its own computation is unsubscribed from it by the implementation
             # ("we must unsubscribe first, so that we don't get a notification from the directory")
             if [x, "C", arg] in ref["subs"]:
@@ -206,8 +205,6 @@ class DiscSpec(netx.Spec):
         elif op == "unsubR":
             d.unsubscribe_replica(arg)
             ref["subs"].remove([x, "R", arg])
-            if [x, arg] in ref.get("r_interrupted", []):
-                ref["r_interrupted"].remove([x, arg])
             if [x, "R", arg] not in ref["unsubbed"]:
                 ref["unsubbed"].append([x, "R", arg])
             world.mon.get("cb", {}).pop((x, "R", arg), None)
@@ -286,8 +283,10 @@ class DiscSpec(netx.Spec):
                 if mine != theirs:
                     stale = "stale-replica" if mine - theirs else "missing-replica"
                     resub = "after-resubscription" if [x, "R", item] in ref["unsubbed"] else "first-subscription"
-                    if [x, item] in ref.get("r_interrupted", []):
-                        resub += "+computation-unregistered-and-registered-again-meanwhile"
+                    if item in ref.get("reregistered", []):
+                        # root-cause feature: replica records outlive the computation's registration in the directory, but
+                        # publications / notifications that arrive while it is un-registered are dropped
+                        resub = "computation-unregistered-and-registered-again"
                     report(f"C20|view-differs|replica|{stale}|{resub}", f"quiescent: {x} sees replicas of {item} on {sorted(mine)}, the directory on {sorted(theirs)}; model {ref}")
                     return
             elif kind == "A":
